@@ -169,12 +169,18 @@ impl<P: SingleObjectiveProblem> Selection<P> for DECurrentToBest {
         let best = f::best(population).wrap_err("population is empty")?;
         let selection = population
             .iter()
-            .flat_map(|individual| {
+            .enumerate()
+            .flat_map(|(index, individual)| {
                 let mut selection = vec![individual, best];
 
                 // Sample only individuals randomly that are not `individual`
-                let remaining_population: Vec<_> =
-                    population.iter().filter(|&i| i != individual).collect();
+                // (by position: an identical twin of `individual` is another individual)
+                let remaining_population: Vec<_> = population
+                    .iter()
+                    .enumerate()
+                    .filter(|&(other, _)| other != index)
+                    .map(|(_, i)| i)
+                    .collect();
 
                 selection.extend(remaining_population.choose_multiple(rng, size));
                 selection
